@@ -29,7 +29,7 @@ MAX_TIMEOUTS = {"quick": 1, "thorough": 20}
 REQUIRED = {"supplied_atoms_checked": 2000, "centre_only_residues": 100, "generated_residues": 300,
             "prefix_runs": 20, "build_res_runs": 15, "ignore_runs": 25, "failed_attempts_seen": 40,
             "supplied_checks_after_removal": 200, "ignore_positions": 3,
-            "meta_build_res_runs": 8, "injected_step_schedules": 30, "atoms_and_centres_runs": 20, "ligand_runs_with_supplied_hosts": 30,
+            "meta_build_res_runs": 8, "injected_step_schedules": 30, "atoms_and_centres_runs": 20, "ligand_runs_with_supplied_hosts": 30, "ignore_runs_with_density_box": 15,
             "pdb_inputs_with_three_or_more_molecules": 10}
 
 
@@ -219,6 +219,21 @@ def run_ignore(cid, rng, workdir, res):
     T.write_gro(os.path.join(workdir, "in.gro"), rows, box)
     others = sorted({rn for mt in sysd["moltypes"] if mt["name"] != "SOL" for rn in mt["res"]})
     kw = {"coordpath": Path(workdir) / "in.gro", "ignore": ["SOL"], "build_res": others}
+    want_edge = None
+    if rng.random() < 0.25:
+        # the ignored molecules come from a structure that defines no box (PDB without CRYST1) and the box is asked for by
+        # density: it is the cube for the mass of the whole system, ignored molecules included
+        last = None
+        for r_, g_ in zip(rows, [g for g in groups for _x in g["rows"]]):
+            if last is not None and g_ is not last[1]:
+                last[0]["ter"] = True
+            last = (r_, g_)
+        rows[-1]["ter"] = True
+        T.write_pdb(os.path.join(workdir, "in.pdb"), rows, box, cryst=False)
+        kw["coordpath"] = Path(workdir) / "in.pdb"
+        kw["density"] = T.total_mass(sysd) * 1.6605410 / b ** 3
+        want_edge = b
+        bump(res, "ignore_runs_with_density_box")
     ctx_kw = {}
     if rng.random() < 0.4:
         ctx_kw["fail_attempts_left"] = rng.randint(1, 2)
@@ -239,6 +254,9 @@ def run_ignore(cid, rng, workdir, res):
     if [(r["resid"], r["resname"], r["name"]) for r in gro["rows"]] != [(e[0], e[1], e[2]) for e in exp]:
         violation(res, "ignored-molecule-changes-atom-list", "output atom list differs from the topology with -ign", w)
         return res
+    if want_edge is not None and any(abs(x - want_edge) > 2e-4 for x in gro["box"][:3]):
+        violation(res, "density-box-leaves-out-ignored-molecules", "box %s, the cube for the mass of all molecules (%.1f) at the "
+                  "requested density has edge %.4f" % (gro["box"][:3], T.total_mass(sysd), want_edge), w)
     out_groups = C03.split_rows(sysd, gro)
     gi = 0
     ngen = 0
